@@ -150,22 +150,7 @@ theorem tail_spec {d F : Bytes} {N : Nat} {all : List FieldT} {nl : Bytes} {pp :
       obtain ⟨pp1a, ua, u1, u2, u3, u0, u4, u5, u6, u7, u8, u9⟩ := hunesc
       have hval2 : ValSt done f pp1a (slice d sv l.poff ++ wrest) := valSt_congr hval1 rfl u4 u5 u6 u7
       -- the `last_escape` argument
-      have hlec : ∀ x, tailEscape l.lastEscape l.poff = some x → sv ≤ x ∧ x < l.poff ∧ d[x]? = some cPct := by
-        intro x hx
-        cases hl : l.lastEscape with
-        | none => rw [hl] at hx; cases hx
-        | some y =>
-          rw [hl] at hx
-          have hy := hle y hl
-          rw [hsv'] at hy
-          simp only [tailEscape] at hx
-          by_cases h2 : 2 < l.poff - y
-          · rw [if_pos h2] at hx; cases hx
-          · rw [if_neg h2] at hx; cases hx
-            rcases hy with hy | hy
-            · exact hy
-            · omega
-      obtain ⟨p, vo, es, hpv, hval3⟩ := value_process (tailEscape l.lastEscape l.poff) wrest hval2 u9 hf.2.2.1 hsvp hB.poff hlec
+      obtain ⟨p, vo, es, hpv, hval3⟩ := value_process (tailEscape l.lastEscape l.poff) wrest false hval2 u9 hf.2.2.1 hsvp hB.poff (by intro h; cases h)
       have hfs1a : pp1a.fault.isSome = false := by rw [u1]; rfl
       have e : urlTail d pp l = ({ pp1a with xbuf := p, valueOffset := vo, mustIkvi := false, evs := es }, true) := by
         simp only [urlTail, hne, if_false, e1, hfs1, Bool.false_eq_true, or_self, urlTailValue, hsv', Option.isSome_some,
@@ -189,12 +174,12 @@ theorem feed_good {d F : Bytes} {N : Nat} {all : List FieldT} {nl : Bytes} {pp :
     simp only [feed, hfs, Bool.false_eq_true, if_false, List.length_nil, if_true]
     exact ⟨trivial, by simpa using hG⟩
   · obtain ⟨hB, hI⟩ := good_start hG
-    have hmu : mu d pp {} < 3 * d.length + 3 := by
+    have hmu : mu d pp {} < 3 * d.length + 4 := by
       simp only [mu]
       have : rank pp.state ≤ 2 := by cases pp.state <;> simp [rank]
       omega
-    obtain ⟨hB', hI', hend, hncb⟩ := loop_inv hok hnl (3 * d.length + 3) pp {} hB hI hmu
-    have hfs' : (urlLoop (3 * d.length + 3) d pp {}).1.fault.isSome = false := by rw [hB'.fault]; rfl
+    obtain ⟨hB', hI', hend, hncb⟩ := loop_inv hok hnl (3 * d.length + 4) pp {} hB hI hmu
+    have hfs' : (urlLoop (3 * d.length + 4) d pp {}).1.fault.isSome = false := by rw [hB'.fault]; rfl
     have := tail_spec (by omega) hok hB' hI' hend hncb
     simp only [feed, hfs, Bool.false_eq_true, if_false, hd, hB.url, if_true, postProcessUrlencoded, hfs']
     exact this
